@@ -1,7 +1,7 @@
 (* Properties_C10.v — the theorems that decide property C10 on the model, each stated in full and closed by
    `exact <lemma>`; the lemmas live in the Proofs_*.v files.  Nothing else belongs in this file. *)
 From Coq Require Import Sorting.Sorted.
-From Theo Require Import Base Regex Tokens Errors MacroExtract Grammar LR Gen_MacroGrammar Gen_Consts MacroApply SpecLex SpecMacro MacroStatements Proofs_Macro.
+From Theo Require Import Base Regex Tokens Errors MacroExtract Grammar LR Gen_MacroGrammar Gen_Consts MacroApply SpecLex SpecMacro MacroStatements Proofs_Macro HygieneStatements Proofs_Hygiene.
 Local Open Scope Z_scope.
 
 
@@ -37,3 +37,20 @@ Theorem C10_one_rewrite_per_pass :
               (ch = false -> (0 < n)%nat -> try_bins false bins out (p + Z.of_nat k) = Ok None).
 Proof. exact C11_steps_proof. Qed.
 Print Assumptions C10_one_rewrite_per_pass.
+
+Theorem C10_steps_provenance :
+  forall bins input p k out, Steps bins input p k out ->
+    forall t, In t out ->
+      In t input \/ body_token bins t \/
+      exists q, p <= q < p + Z.of_nat k /\ temp_of_pass bins q t.
+Proof. exact C10_steps_provenance_proof. Qed.
+Print Assumptions C10_steps_provenance.
+
+Theorem C10_steps_hygiene :
+  forall bins input p k out t1 t2 q1 q2, 0 <= p ->
+    Steps bins input p k out ->
+    In t1 out -> In t2 out ->
+    temp_of_pass bins q1 t1 -> temp_of_pass bins q2 t2 -> 0 <= q1 -> 0 <= q2 ->
+    ttext t1 = ttext t2 -> q1 = q2.
+Proof. exact C10_steps_hygiene_proof. Qed.
+Print Assumptions C10_steps_hygiene.
